@@ -337,6 +337,7 @@ DEFAULT_OPTS = dict(
     virtual_dtor=False,   # M has a virtual destructor
     argm=None,            # tuple of argument matcher variants, one per parameter; None = wildcard
     long_macros=False,    # -DTROMPELOEIL_LONG_MACROS and TROMPELOEIL_ prefixed spelling
+    vform=False,          # the variadic spelling FAMILY_V(obj, call, .CLAUSE(..) .CLAUSE(..)) (docs/Backward.md; valid at every level)
 )
 
 ARG_MATCHERS = {
